@@ -17,11 +17,13 @@ pub struct Limits {
     /// abstraction-adequacy post-pass (DESIGN §2.3): different histories reaching the same
     /// abstract state must have the same one-step fan-out
     pub adequacy: bool,
+    /// return the BFS-shortest history of every state (used by the fault engine)
+    pub collect_histories: bool,
 }
 
 impl Default for Limits {
     fn default() -> Self {
-        Limits { max_states: 2_000_000, max_secs: 1500.0, max_depth: usize::MAX, adequacy: false }
+        Limits { max_states: 2_000_000, max_secs: 1500.0, max_depth: usize::MAX, adequacy: false, collect_histories: false }
     }
 }
 
@@ -54,6 +56,7 @@ pub struct Explore {
     pub observers: usize,
     pub adequacy_pairs: u64,
     pub adequacy_steps: u64,
+    pub histories: Vec<Vec<Op>>,
 }
 
 struct Node {
@@ -299,6 +302,9 @@ pub fn explore(driver: &dyn Driver, props: &BTreeSet<&'static str>, want: &Wants
         }
     }
 
+    if limits.collect_histories {
+        ex.histories = (0..nodes.len() as u32).map(|i| history(&nodes, i)).collect();
+    }
     ex.states = nodes.len();
     ex.max_depth = nodes.iter().map(|n| n.depth as usize).max().unwrap_or(0);
     ex.closed = capped.is_none();
